@@ -35,8 +35,11 @@ BulkRules ==
     R(A("c", <<Y>>), <<<<"pos", A("b", <<X>>)>>, <<"eq", Y, Ap("fn:plus", <<X, N(1000)>>)>>>>),
     R(A("e2", <<X, Y>>), <<<<"pos", A("b", <<X>>)>>, <<"pos", A("s", <<Y>>)>>>>),
     [h |-> A("k", <<Var("V")>>), b |-> <<<<"pos", A("b", <<X>>)>>>>, t |-> <<"let", <<<<"V", Ap("fn:plus", <<X, N(1000)>>)>>>>>>],
-    [h |-> A("cnt", <<Var("C")>>), b |-> <<<<"pos", A("b", <<X>>)>>>>, t |-> <<"do", <<>>, <<<<"C", "fn:count", <<>>>>>>>>] }
+    [h |-> A("cnt", <<Var("C")>>), b |-> <<<<"pos", A("b", <<X>>)>>>>, t |-> <<"do", <<>>, <<<<"C", "fn:count", <<>>>>>>>>],
+    \* a built-in predicate used as a generator: one solution per element of one long stored list
+    R(A("c", <<X>>), <<<<"pos", A("ls", <<Var("L")>>)>>, <<"bi", ":list:member", <<X, Var("L")>>>>>>),
+    R(A("e2", <<X, Y>>), <<<<"pos", A("ls", <<Var("L")>>)>>, <<"bi", ":list:member", <<X, Var("L")>>>>, <<"pos", A("s", <<Y>>)>>>>) }
 BulkN == 120
-BulkEdbs == { {A("b", <<N(i)>>) : i \in 1..BulkN} \cup {A("s", <<N(1)>>), A("s", <<N(2)>>)} }
+BulkEdbs == { {A("b", <<N(i)>>) : i \in 1..BulkN} \cup {A("s", <<N(1)>>), A("s", <<N(2)>>), A("ls", <<List([i \in 1..BulkN |-> N(i)])>>)} }
 KeepAll(r) == TRUE
 =============================================================================
